@@ -82,6 +82,22 @@ def run(prog, rule="R-CURSORBACK", floor=1):
             if used:
                 continue
             saved = [v for v, (sb, si) in saves.items() if v in restores and ((sb == b["id"] and si < i) or (sb != b["id"] and sb in dom.get(b["id"], ())))]
+            # ... or the un-read happens only where a cursor saved before the call is seen unchanged (`p = state->p; skip (state); if (p == state->p)`)
+            if not saved:
+                before = [v for v, (sb, si) in saves.items() if (sb == b["id"] and si < i) or (sb != b["id"] and sb in dom.get(b["id"], ()))]
+                for cb in f.live:
+                    cnd = f.blocks[cb].get("c")
+                    if cnd is None:
+                        continue
+                    same = False
+                    for nd in walk(cnd):
+                        if isinstance(nd, list) and nd and nd[0] == "b" and nd[1] == "==":
+                            for x, y in ((nd[2], nd[3]), (nd[3], nd[2])):
+                                if is_var(strip(x), kind="l") and strip(x)[2] in before and _is_cursor(y):
+                                    same = True
+                    if same and all(cb == ub or cb in dom.get(ub, ()) for ub, ui, _e in unreads
+                                    if (ub == b["id"] and ui > i) or (ub != b["id"] and b["id"] in dom.get(ub, ()))):
+                        saved = ["(unchanged-cursor test)"]
             if not saved:
                 bad = (c, e[2])
                 break
